@@ -904,6 +904,6 @@ META = {
              "scale deviation accumulates over the image; with align the 'separated -> empty' margin above the image is padding + "
              "align - 1.  The model follows the code after three repairs: _can_paste '>= stol', align=0 treated as None, "
              "roi_boundary in float64 (witnesses in corpus/C03, corpus/C10)."),
-    "technique": "Coq proof over hand-written Gallina model + exact differential correspondence (vm_compute) + exact brute-force search",
+    "technique": "Coq proof over hand-written Gallina model + exact differential correspondence (vm_compute) + exact brute-force search + leaf functions regenerated from source by py2v on every run and proved equal to the model (source_is_model theorem)",
     "design_ref": "DESIGN.md section 5, C03",
 }
